@@ -130,7 +130,8 @@ def gen_spec(rng, size=None, features=None):
                   'files': rng.sample(cands, rng.randint(0, min(2, len(cands)))),
                   'cmd_refs': rng.sample(cands, rng.randint(0, min(2, len(cands)))),
                   'extra': pick_extra(),
-                  'always': 'always' in feats and rng.random() < 0.12}
+                  'always': 'always' in feats and rng.random() < 0.12,
+                  'env': rng.choice([None, None, 'v%d' % i, 'two words %d' % i, "q'%d$x" % i])}
         elif kind == 'copy':
             if 'copy' not in feats:
                 continue
@@ -157,7 +158,8 @@ def gen_spec(rng, size=None, features=None):
             nd = {'id': i, 'kind': 'cmd', 'name': 'cm%d' % i,
                   'refs': rng.sample(cands, rng.randint(0, min(2, len(cands)))),
                   'files': rng.sample(cands, rng.randint(0, min(1, len(cands)))),
-                  'extra': pick_extra()}
+                  'extra': pick_extra(),
+                  'env': rng.choice([None, 'c%d' % i, 'a b %d' % i])}
         elif kind == 'pch':
             if 'pch' not in feats:
                 continue
@@ -260,8 +262,9 @@ def render(spec, stub='vrec'):
             files = ', files=[%s]' % ', '.join(_ref(r) for r in nd['files']) if nd['files'] else ''
             always = ', always_outdated=True' if nd['always'] else ''
             name = repr(nd['outs'][0]) if len(nd['outs']) == 1 else repr(nd['outs'])
-            L.append('%s = build_step(%s, cmd=[%s]%s%s%s)' % (v, name, ', '.join(cmd), files,
-                                                             always, extra))
+            envs = ", environment={'VF_E': %r}" % nd['env'] if nd.get('env') else ''
+            L.append('%s = build_step(%s, cmd=[%s]%s%s%s%s)' % (v, name, ', '.join(cmd), files,
+                                                               always, envs, extra))
         elif k == 'copy':
             L.append('%s = copy_file(%r, %s, mode=%r%s)' % (v, nd['name'], _ref(nd['src']),
                                                            nd['mode'], extra))
@@ -271,8 +274,9 @@ def render(spec, stub='vrec'):
         elif k == 'cmd':
             cmd = [repr(stub), repr('--id=%d' % i)] + [_ref(r) for r in nd['refs']]
             files = ', files=[%s]' % ', '.join(_ref(r) for r in nd['files']) if nd['files'] else ''
-            L.append('%s = command(%r, cmd=[%s]%s%s)' % (v, nd['name'], ', '.join(cmd), files,
-                                                        extra))
+            envs = ", environment={'VF_E': %r}" % nd['env'] if nd.get('env') else ''
+            L.append('%s = command(%r, cmd=[%s]%s%s%s)' % (v, nd['name'], ', '.join(cmd), files,
+                                                          envs, extra))
         elif k == 'test':
             if nd['exe'] is not None:
                 L.append('test(n%d)' % nd['exe'])
